@@ -218,6 +218,12 @@ pub fn check(c: &InitCase, info: &mut CaseInfo) -> Result<(), String> {
             let mut cfg = cfg.clone();
             cfg.transport = *t;
             let w = new_world(&cfg);
+            // the D/C line may idle at any level before init (e.g. left high by an earlier session)
+            w.borrow_mut().dc = match (cfg.h as u32 + cfg.ox as u32 + cfg.orient.index() as u32) % 3 {
+                0 => None,
+                1 => Some(true),
+                _ => Some(false),
+            };
             let sup = supported(cfg.model, t.kind());
             match build(&cfg, &w) {
                 Ok(mut d) => {
@@ -282,6 +288,12 @@ pub fn option_product(models: &[ModelId], vias: &dyn Fn(ModelId) -> Vec<Via>, re
                                 let h = 1 + ((k >> 16) % fh as u64) as u16;
                                 let ox = ((k >> 32) % (fw - w + 1) as u64) as u16;
                                 let oy = ((k >> 48) % (fh - h + 1) as u64) as u16;
+                                let mut via = via.clone();
+                                if let Via::Builder(Transport::Spi { buf: 0 }) = via {
+                                    // "some small staging buffer": lengths around the parameter counts of the init sequences
+                                    const BUFS: [u32; 14] = [1, 2, 3, 4, 5, 6, 7, 9, 10, 12, 14, 15, 16, 17];
+                                    via = Via::Builder(Transport::Spi { buf: BUFS[((k >> 24) % BUFS.len() as u64) as usize] });
+                                }
                                 let transport = match &via {
                                     Via::Builder(t) => *t,
                                     Via::Direct(_) => Transport::Rec8,
@@ -343,10 +355,11 @@ pub fn run(ctx: &Ctx) -> Report {
 
     let mut sec = Section::new(
         &format!("builder[{}]", ctx.variant),
-        "every built-in model x transports reachable through Builder (recording interfaces; in thorough also SPI / 8-bit / 16-bit parallel at pin level) x the same option product x reset pin yes/no; additionally the reset-first oracle and: set_orientation(same) resends exactly the byte programmed by init",
+        "every built-in model x transports reachable through Builder (recording interfaces, SPI with 32- and 1-byte buffers, 8-bit / 16-bit parallel at pin level with the D/C line idling undefined, high or low before init) x the same option product x reset pin yes/no; additionally the reset-first oracle and: set_orientation(same) resends exactly the byte programmed by init",
     );
     sec.exhaustive = true;
     let thorough = ctx.tier == Tier::Thorough;
+    let _ = thorough;
     let builder = move |m: ModelId| {
         let mut v = vec![Via::Builder(Transport::Rec8)];
         if type_compatible(m, Transport::Rec16) {
@@ -354,12 +367,12 @@ pub fn run(ctx: &Ctx) -> Report {
         }
         v.push(Via::Builder(Transport::Spi { buf: 32 }));
         v.push(Via::Builder(Transport::Spi { buf: 1 }));
-        if thorough {
-            v.push(Via::Builder(Transport::Par8));
-            if type_compatible(m, Transport::Par16) {
-                v.push(Via::Builder(Transport::Par16));
-            }
+        v.push(Via::Builder(Transport::Par8));
+        if type_compatible(m, Transport::Par16) {
+            v.push(Via::Builder(Transport::Par16));
         }
+        // buf 0 = a small length chosen per case (see option_product)
+        v.push(Via::Builder(Transport::Spi { buf: 0 }));
         v
     };
     run_enumerated(&mut sec, option_product(&models, &builder, true, ctx.seed ^ 11), ctx.workers, check, sig);
